@@ -57,7 +57,10 @@ import arim.ray                                 # noqa: E402
 import arimgen                                  # noqa: E402
 
 rng = chk.rng
-Q = chk.tier == "quick"
+# second tie: the summands of the five mean delay-and-sum kernels are re-translated from the current source and
+# checked convertible with Model/Das.v; a broken tie deepens the correspondence run (thorough sizes)
+_ties = chk.translation_tie()
+Q = chk.tier == "quick" and all(v == "ok" for v in _ties.values())
 IMPORTS = ("From Coq Require Import ZArith List PrimFloat.\n"
            "From Arim Require Import Base.Num Base.NumF Model.Das Model.Tfm.\n")
 SCHEME = {0: "nearest", 1: "linear", 2: ("lanczos", 3)}
